@@ -11,8 +11,9 @@ package main
 // Model: count = sum of the events that have been *delivered* (a send on the
 // unbuffered channel has completed).  Oracles:
 //   wait(false) returns exactly the first signal, and only after it was sent;
-//   wait(true), once it has returned v: v == SIGTERM and the delivered count is
-//     zero, or v is the second signal and that signal was delivered;
+//   wait(true), once it has returned: the delivered count is zero, or a second
+//     signal was delivered (the value returned is not judged - the property
+//     only says the shutdown completes, and main discards the value);
 //   wait(true) must have returned whenever the delivered count is zero (also
 //     when it already is zero at the call) or a second signal was delivered.
 //     "Has not returned" is only claimed when all senders have completed AND
@@ -400,8 +401,11 @@ func (mo *vf19Mon) returnOracle(st *vf19HistStats, desc string) string {
 	}
 	v := mo.waitVal[1]
 	sig2 := mo.nsig == 2 && mo.sigDone[1]
-	okZero := v == syscall.SIGTERM && mo.delivered == 0
-	okSig := sig2 && v == mo.sigVal[1]
+	// The value wait(true) returns is not pinned by the property (main discards
+	// it): only WHEN it returns is judged - no handler active, or a second
+	// signal delivered.
+	okZero := mo.delivered == 0
+	okSig := sig2
 	if !okZero && !okSig {
 		return fmt.Sprintf("VIOL[c19-wait-true-return]: wait(true) returned %v while %d handlers were active (sum of delivered start/finish events) and second signal delivered = %v; %s", v, mo.delivered, sig2, desc)
 	}
@@ -773,7 +777,7 @@ func TestVerifC19TermMachine(t *testing.T) {
 // TestVerifC19TermFree: handlers, signals and main run freely (meant for -race).
 func TestVerifC19TermFree(t *testing.T) {
 	e := ev.For("C19")
-	e.Rule("term-free: k <= 6 handler goroutines each doing delay, start, delay, finish; a signal goroutine; optionally a second signal; main calls wait(false), then after a delay wait(true); all delays generated (0-200 us); oracle: wait(false) returns the first signal; wait(true) returns (every handler finishes eventually), and at its return either the delivered events sum to zero (SIGTERM) or the second signal was delivered (that signal); non-trivial = a handler event was delivered after the first signal")
+	e.Rule("term-free: k <= 6 handler goroutines each doing delay, start, delay, finish; a signal goroutine; optionally a second signal; main calls wait(false), then after a delay wait(true); all delays generated (0-200 us); oracle: wait(false) returns the first signal; wait(true) returns (every handler finishes eventually), and at its return either the delivered events sum to zero or the second signal was delivered (the value it returns is not judged: main discards it); non-trivial = a handler event was delivered after the first signal")
 	rapid.Check(t, func(rt *rapid.T) {
 		k := rapid.IntRange(0, 6).Draw(rt, "handlers")
 		dl := func(name string) time.Duration {
